@@ -94,4 +94,4 @@ def run_stage(ctx, prefixes, thorough=False):
     trace = st_cluster.merge(ctx, traces, "cm-trace.ndjson")
     stats = st_cluster.account(ctx, trace)
     ctx.stage("clustermodel-real-runs", exported_initial_states=len(models), **stats)
-    vlib.validate_traces(ctx, st_cluster.MODULE, trace, st_cluster.invariants(prefixes), tuple(prefixes), timeout=3000, heap="10g", sig_detail=st_cluster.sig_detail)
+    vlib.validate_traces_parallel(ctx, st_cluster.MODULE, trace, st_cluster.invariants(prefixes), tuple(prefixes), chunks=8, timeout=3000, heap="10g", sig_detail=st_cluster.sig_detail)
